@@ -134,9 +134,10 @@ claim('C14', 'Lean 4 theorems on a model of process_dt / the relative-offset mat
 claim('C05', 'Lean 4 theorems on the per-container block-assembly loops (all chunkings) with loop shapes and buffer sizes regenerated from the source; in-process BlockReader correspondence on self-built containers; plain-vs-container oracle on the binary',
       "Machine-checked for every block size, every byte string (empty, 1 byte, exact multiples) and every decoder chunking: gz, bz2, xz, tar and the temp-file extraction assemble exactly the "
       "plain file's blocks and learn its size; a streamed reader asked in non-decreasing order answers like the plain reader; the look-back depth as coded is 0 (proved, with the "
-      "'one block behind' counter-model); the xz extra empty block is never returned. lz4 assembles correctly only if every read fills the buffer - false in general (F22, proved and "
-      "reproduced). Tie: real BlockReader on containers built in the harness (gz levels/flush points, xz, lz4 frames, tar variants, python bz2/pax) under several request orders; the binary on plain vs packed text "
-      "logs, accounting files, the evtx sample and a journal, with and without windows. Known findings F22-F24.",
+      "'one block behind' counter-model); the xz extra empty block is never returned. lz4 assembles exactly the plain file's blocks for every chunking; the proof unfolds the generated "
+      "LZ4_FILL_LOOP (the single-read reader, repaired in 0949c9b4 / was F22, is kept as a counter-model). Tie: real BlockReader on containers built in the harness (gz levels/flush points, xz, lz4 frames, "
+      "tar variants, python bz2/pax) under several request orders; the binary on plain vs packed text logs (also multi-block at small --blocksz with windows, and year-less), "
+      "accounting files (F24 repaired in fd997268), the evtx sample and a journal. Known finding F23 (third-party bz2 decoder).",
       TB + "flate2, bzip2-rs, lz4_flex, lzma-rs, tar decode correctly (F23 is a decoder failure); real chunk sizes are not observed (the theorem covers all chunkings).",
       "DESIGN.md §6 C05")
 
